@@ -29,6 +29,15 @@ CHECKS = {
             "input are asserted. Exploration.",
             "Trusts the checker's structural equality on Delegations/Pools.",
             "DESIGN.md §3 C12"),
+    "C16": ("grammar-based property testing (Hypothesis): member / near-miss generators per documented format against "
+            "hand-written character-level recognisers, differential across all construction paths",
+            "Tens of thousands of candidate strings per run (members, edit-distance-1 near-misses, boundary numbers, "
+            "scalar and list forms) pushed through every entry point (constructor, update, from_json, element "
+            "assignment, add_* keyword, rename, graph read-back); accept/reject and the stored value are compared with "
+            "an independent three-valued recogniser. Exploration.",
+            "Trusts the hand-written recognisers (engines/labelgrammar.py), which read the documented patterns "
+            "literally; engine-specific regions (Unicode digits, bool-as-int) are only compared differentially.",
+            "DESIGN.md §3 C16, Appendix D"),
     "C18": ("exhaustive enumeration of the request grid and catalogue x argument shapes against a brute-force Pareto "
             "oracle and the catalogue JSON, plus Hypothesis-generated requests",
             "Every (core, ram, disk) request on the grid spanned by the catalogue values +-1 (31 824 requests) and every "
